@@ -16,6 +16,15 @@
      Connection) and records what the peer and the owner observe.
   4. The TLA+ monitor spec/KeepAliveMon.tla (TLC over obs.ndjson) gives the verdict with the same predicates;
      equality with the exported expectation is only "drift".
+  5. Transport dimension (KeepAlive.tla Part 1b + spec/KeepAliveTr.tla): for each transport (stream connection,
+     streamable HTTP client, streamable HTTP server pinging its client, legacy SSE client) the table of the concrete
+     ways a ping can fail and what the property makes of each (a miss of a possibly-live peer, tolerated up to the
+     threshold / the connection is dead or the session terminated, the session may end at once).  TLC enumerates the
+     scripts of classes (<= threshold + 1 pings, thresholds 1..3), runs the same ticker loop on their verdicts and
+     exports the cases; harness/mcp/c13_transport_test.go plays them on a real ClientSession over the real
+     StreamableClientTransport / SSEClientTransport (scripted RoundTripper), on a real Server behind
+     StreamableHTTPHandler.ServeHTTP and on the stream levels; the same monitor judges, taking each ping's verdict
+     from the model's table.
 """
 import json, os, random, re, time
 import vlib
@@ -27,7 +36,10 @@ WITNESSES = ("NeverClosed", "NeverStopped", "NeverTolerated", "NeverReset", "Nev
              "NeverCatchUp", "NeverDroppedTick", "NeverRecoveredAfterHold", "NeverToleratedHold", "NeverClosedByHold",
              "NeverClosedAfterFallback", "NeverModern", "NeverLeftWithTickWaiting")
 LEVELS = ("func", "server", "client")
+TR_LEVELS = {"mem": ["client", "server"], "httpc": ["httpc"], "https": ["https"], "sse": ["sse"]}
+HARNESS_FILES = ["mcp/c13_keepalive_test.go", "mcp/c13_transport_test.go"]
 TLC_WORKERS = 4
+TR_QUICK_SAMPLE = 300
 
 
 def consumed(c):
@@ -50,6 +62,8 @@ def levels_of(c):
 
 
 def env_of(e):
+    if e.get("tr"):
+        return ""
     return (("" if e["hs"] == 0 else ":hs=%d" % e["hs"]) + ("" if e["cc"] < 0 else ":cc=%d" % e["cc"])
             + ("" if e["est"] == "init" else ":est=" + e["est"]))
 
@@ -86,6 +100,16 @@ def late_tick(e):
 def sig_of(inv, e):
     if inv == "SilentStop" and late_tick(e):
         return LATE_TICK_SIG
+    if e.get("tr"):
+        # transport dimension: the classes the scripted peer played, at the level they were played at
+        lvl = e["level"] if e["level"] == e["tr"] else e["tr"] + "-" + e["level"]
+        pre = ",".join(p["cls"] for p in e["pings"]) or "-"
+        if len(e["attempts"]) > len(e["pings"]) and inv in ("SilentStop", "Completeness"):
+            pre += "+%dx" % (len(e["attempts"]) - len(e["pings"]))   # attempts that never reached the peer
+        s = "%s:%s:classes=%s:T=%d:%s" % (inv, lvl, pre, e["T"], got_of(e))
+        if inv == "NoLeftovers":
+            s += ":left=%d:exit=%s" % (e["left"], "clean" if e["exit"] == "clean" else "stuck")
+        return s
     n = len(e["pings"])
     pre = "".join(p["k"] if p["o"] == "l" else p["o"] for p in e["pings"]) or "-"
     if len(e["attempts"]) > len(e["pings"]):
@@ -125,7 +149,7 @@ def run_harness(out, cases_path, part, sd, tier):
     and the process is started again. Returns (rc, output)."""
     stuck = []
     for attempt in (1, 2, 3):
-        rc, gout, wall = vlib.go_test("mcp", "^TestVerif_C13$", ["mcp/c13_keepalive_test.go"],
+        rc, gout, wall = vlib.go_test("mcp", "^TestVerif_C13$", HARNESS_FILES,
                                       env={"VERIF_IN": cases_path, "VERIF_OUT": part, "VERIF_SEED": sd},
                                       timeout=180 if tier == "quick" else 900)
         wd = [l for l in gout.splitlines() if l.startswith("C13-WATCHDOG")]
@@ -181,6 +205,21 @@ def run(tier, seed, replay):
         "server/discover accepted; 'keep-alive is in force' is judged on the version the real session reports afterwards "
         "(ping exists below 2026-07-28, ClientOptions.KeepAlive documents the same); scripts of length <= 3; server sessions are "
         "established by the peer's initialize only (a ServerSession whose peer uses server/discover is not exercised)",
+        "transport dimension: what each concrete way of failing a ping is for the property (a miss, tolerated below the threshold / "
+        "connection dead or session terminated, the session may end at once) is stated by KeepAlive.tla Part 1b from the property text "
+        "(answered / timed out / method-not-found / connection error are its outcome classes) and from what the SDK documents "
+        "(isTransientHTTPStatus: 429 500 502 503 504 'should not permanently break the connection'; docs/mcpgodebug.md "
+        "noprotocolerrorbody: a non-2xx response with a JSON-RPC error body is a per-call rejection, 'any non-transient error will "
+        "permanently fail the connection' otherwise; Connection.Close 'implicitly called whenever a Read or Write fails'; 404 = session "
+        "terminated), never from what the code does; where nothing is documented (202 in reply to a request, a JSON body that is cut or "
+        "is no JSON-RPC, an event stream that ends before the response, an unknown content type, every POST error of the legacy SSE "
+        "client) the permissive class is used: the session may end at once or count a failed ping, and coverage reports which it did",
+        "transport dimension: the peers are scripted (http.RoundTripper for the clients, an in-process caller of ServeHTTP for the server); "
+        "statuses without JSON-RPC body carry no body, a text/plain or a text/html body (seeded); the streamable client's standalone GET is "
+        "answered 405 or disabled (seeded); the streamable server's client keeps its standalone stream attached and detaches it an eighth of "
+        "an interval before the tick of a ping that is to be undeliverable (no event store); a session that ended because its connection was "
+        "reported dead is given the threshold's intervals and a ping timeout before its keep-alive loop must be gone (it can only find out "
+        "by its own pings failing); owner's Close between two pings only; resumable streams (event ids) are C09's",
         "TLC exhaustive results are for scripts of length <= 6 and the stated thresholds",
     ]
     out = vlib.outdir(PID)
@@ -235,6 +274,8 @@ def run(tier, seed, replay):
         elif b is None or any(b[f] != c[f] for f in ("nping", "closeAt", "userAt", "final", "ticks", "holds")):
             raise vlib.MachineryError("KeepAlive.tla: handshake slot %d / Connect-context slot %d / establishing by %s changes the run of %s" % (
                 c["hs"], c["cc"], c["est"], json.dumps(b)))
+    for c in cases:
+        c["tr"], c["cls"], c["dlag"] = "", [], 0
     for i, c in enumerate(cases):
         c["id"] = i
     ncases = len(cases)
@@ -252,13 +293,15 @@ def run(tier, seed, replay):
     if replay:
         rep = json.load(open(replay))["replay"]
         want = rep["case"]
-        match = [c for c in cases if c["pattern"] == want["pattern"] and c["T"] == want["T"] and c["end"] == want["end"]
+        match = [c for c in cases if not want.get("tr") and c["pattern"] == want["pattern"] and c["T"] == want["T"] and c["end"] == want["end"]
                  and c["drain"] == want.get("drain", 0) and c["hs"] == want.get("hs", 0) and c["cc"] == want.get("cc", -1)
                  and c["est"] == want.get("est", "init")]
-        if not match:
+        if not match and not want.get("tr"):
             raise vlib.MachineryError("replay case not in the exported case set")
-        match[0]["levels"] = [rep["level"]]
-        run_cases = [match[0]]
+        run_cases = []
+        if match:
+            match[0]["levels"] = [rep["level"]]
+            run_cases = [match[0]]
         seeds = [rep["seed"]]
     else:
         seen = set()
@@ -275,6 +318,54 @@ def run(tier, seed, replay):
         if tier == "thorough":
             seeds = [seed, seed + 1000, seed + 2000]
     lap("case_export")
+    # 3b. transport dimension: the cases of KeepAliveTr (same loop, scripts of classes per transport)
+    tcfg = "KeepAliveTr_gen.cfg" if tier == "quick" else "KeepAliveTr_thorough.cfg"
+    tres = vlib.run_tlc("KeepAliveTr", tcfg, workers=TLC_WORKERS, timeout=900, heap_gb=4)
+    vlib.tlc_must_pass(tres, tcfg)
+    v.add_tlc(tcfg + " (design check + case export, transport x failure class)", tres)
+    if not tres.ok:
+        raise vlib.MachineryError("the KeepAlive model (transport dimension) violates %s: design check failed" % tres.violation)
+    tcases = [p for p in tres.printed if isinstance(p, dict) and p.get("tr") and "cls" in p and "closeAt" in p]
+    tcases.sort(key=lambda c: (c["tr"], len(c["cls"]), c["cls"], c["T"]))
+    table = {}
+    for c in tcases:
+        for cl, ver in zip(c["cls"], c["verdicts"]):
+            table[(c["tr"], cl)] = ver
+        if c["end"] != "idle" or c["hs"] != 0 or c["cc"] >= 0 or c["est"] != "init" or len(c["cls"]) != len(c["pattern"]):
+            raise vlib.MachineryError("KeepAliveTr.tla: a case of the transport dimension is not a plain one: %s" % json.dumps(c))
+    # vacuity of the dimension: every transport has an answered class, a miss by silence, a miss by error and a dead class;
+    # a miss below the threshold is followed by more pings, a dead class ends the run
+    for trn in TR_LEVELS:
+        have = {ver for (t, _), ver in table.items() if t == trn}
+        if not {"a", "t", "c", "m", "d"} <= have:
+            raise vlib.MachineryError("KeepAliveTr.tla: transport %s lacks a verdict class (has %s)" % (trn, sorted(have)))
+    if not any(c["closeAt"] >= 0 and c["verdicts"][-1] == "d" and c["nping"] < max(c["T"], 1) for c in tcases) or \
+       not any(c["closeAt"] < 0 and any(x in "tc" for x in c["verdicts"]) for c in tcases):
+        raise vlib.MachineryError("KeepAliveTr.tla: no case ends at once on a dead connection / tolerates a miss")
+    for i, c in enumerate(tcases):
+        c["id"] = ncases + i
+        c["levels"] = list(TR_LEVELS[c["tr"]])
+    v.cov["transport_cases_exported"] = len(tcases)
+    v.cov["transport_classes"] = {trn: {cl: ver for (t, cl), ver in sorted(table.items()) if t == trn} for trn in TR_LEVELS}
+    if replay:
+        want = json.load(open(replay))["replay"]["case"]
+        if want.get("tr"):
+            match = [c for c in tcases if c["tr"] == want["tr"] and c["cls"] == want["cls"] and c["T"] == want["T"]]
+            if not match:
+                raise vlib.MachineryError("replay case not in the exported case set (transport dimension)")
+            match[0]["levels"] = [rep["level"]]
+            run_cases = [match[0]]
+    else:
+        if tier == "quick":
+            # every script of at most two classes, and a seeded sample of the longer ones
+            short = [c for c in tcases if len(c["cls"]) <= 2]
+            longer = [c for c in tcases if len(c["cls"]) > 2]
+            trun = short + rng.sample(longer, min(TR_QUICK_SAMPLE, len(longer)))
+        else:
+            trun = tcases
+        run_cases = run_cases + trun
+        v.cov["transport_cases_run"] = len(trun)
+    lap("transport_case_export")
     cases_path = os.path.join(out, "cases.ndjson")
     vlib.write_ndjson(cases_path, run_cases)
     expected = sum(len(c["levels"]) for c in run_cases)
@@ -340,6 +431,31 @@ def run(tier, seed, replay):
     v.cov["fallback_sessions_pinged"] = sum(1 for r in rows if r["est"] == "fallback" and r["pings"])
     v.cov["discover_rejections"] = {d: sum(1 for r in rows if r["disc"] == d) for d in sorted({r["disc"] for r in rows if r["est"] == "fallback"})}
     v.cov["quiet_period_cut_by_watchdog"] = sum(1 for r in rows if r["quietCut"])
+    # transport dimension: what was played, and what the session did at a ping of each class (not a verdict: the
+    # classes without documented meaning may go either way)
+    trows = [r for r in rows if r["tr"]]
+    v.cov["transport_scenarios_by_level"] = {}
+    treat = {}
+    for r in trows:
+        lvl = r["level"] if r["level"] == r["tr"] else r["tr"] + "-" + r["level"]
+        v.cov["transport_scenarios_by_level"][lvl] = v.cov["transport_scenarios_by_level"].get(lvl, 0) + 1
+        for i, p in enumerate(r["pings"]):
+            last = i == len(r["pings"]) - 1
+            ended = last and r["closed"] >= 0 and r["closed"] >= p["at"]
+            d = treat.setdefault("%s/%s" % (r["tr"], p["cls"]), {"played": 0, "session_ended_at_it": 0, "session_went_on": 0})
+            d["played"] += 1
+            d["session_ended_at_it" if ended else "session_went_on"] += 1
+    v.cov["transport_class_treatment"] = {k: treat[k] for k in sorted(treat)}
+    if not replay:
+        unplayed = [("%s/%s" % (t, cl)) for t in v.cov["transport_classes"] for cl in v.cov["transport_classes"][t]
+                    if ("%s/%s" % (t, cl)) not in treat]
+        if unplayed:
+            raise vlib.MachineryError("classes of the transport dimension that no scenario played: %s" % unplayed)
+    v.cov["transport_sessions_ended_by_dead_connection"] = sum(
+        1 for r in trows if r["closed"] >= 0 and r["pings"] and v.cov["transport_classes"][r["tr"]].get(r["pings"][-1]["cls"]) == "d")
+    v.cov["transport_misses_tolerated"] = sum(
+        1 for r in trows for i, p in enumerate(r["pings"])
+        if v.cov["transport_classes"][r["tr"]].get(p["cls"]) in ("t", "c") and (r["closed"] < 0 or i < len(r["pings"]) - 1))
     v.cov["rule"] = ("cases = every terminal behaviour of KeepAlive.tla (all outcome scripts over {a,t,m,c} of length <= 6 x thresholds "
                      "{0,1,2,3} x owner closes idle / with a ping in flight / while a request handler keeps Close waiting for 1 or 2 intervals (session levels only) "
                      "/ while the transport holds the script's last ping past two ticks; "
@@ -348,10 +464,14 @@ def run(tier, seed, replay):
                      "(not last when past a tick); scripts of length <= 3 x client session established by fallback from server/discover to initialize / by "
                      "server/discover (no ping)), each run at the function level where it exists there; session levels (server, client) run every "
                      "distinct run (consumed script prefix, threshold, closing mode) plus a seeded sample (quick) or every case (thorough, "
-                     "3 concretisation seeds); distinct = (level, outcomes actually consumed, threshold, closing mode, handshake slot, context slot, way of establishing); non-trivial = at least one ping")
+                     "3 concretisation seeds); transport dimension: every script of at most threshold + 1 classes of the transport's table that can be "
+                     "consumed to its end (scripts longer than 2: at most 2 distinct classes in the quick tier), thresholds 1..3 (thorough 0..3), owner closes "
+                     "between two pings; quick runs every script of <= 2 classes and a seeded sample of %d longer ones, thorough all; distinct = (level," % TR_QUICK_SAMPLE + " outcomes actually consumed, threshold, closing mode, handshake slot, context slot, way of establishing); non-trivial = at least one ping")
     v.cov["exhaustive"] = not replay
     for r in rows[:: max(1, len(rows) // 5)][:5]:
         v.sample({k: r[k] for k in ("level", "pattern", "T", "end", "drain", "hs", "cc", "est", "disc", "neg", "pingable", "hsAt", "ccAt", "I", "pings", "attempts", "closed", "userClose", "kaEarly", "kaAlive", "left", "exit")})
+    for r in trows[:: max(1, len(trows) // 3)][:3]:
+        v.sample({k: r[k] for k in ("level", "tr", "cls", "pattern", "T", "I", "pings", "attempts", "closed", "userClose", "kaEarly", "kaAlive", "kaLate", "left", "exit")})
     vio = []
     # a run whose only deviation is a known finding is reported as that finding, not again as drift
     explained = {f["line"] for f in fails if f["monfail"] != "drift" and sig_of(f["monfail"], rows[f["line"] - 1]) in v.known}
@@ -382,6 +502,17 @@ def run(tier, seed, replay):
         if len(seen_sig) > 12 and sig not in v.known:
             continue
         case = {"pattern": e["pattern"], "T": e["T"], "end": e["end"], "drain": e["drain"], "hs": e["hs"], "cc": e["cc"], "est": e["est"]}
+        if e["tr"]:
+            case["tr"], case["cls"] = e["tr"], e["cls"]
+            tab = v.cov["transport_classes"][e["tr"]]
+            v.violation(sig, "real keep-alive run violates %s: transport %s (level %s), script of classes %s (for the property: %s), threshold=%d interval=%dus: %s; "
+                        "pings (at, class played, for the property) %s, ping attempts %s, session ended on its own at %s, owner close %s, keep-alive loops alive "
+                        "after Close began %d / once settled %d / after the threshold's intervals %d, left=%d exit=%s" % (
+                            inv, e["tr"], e["level"], ",".join(e["cls"]), "".join(tab.get(x, "?") for x in e["cls"]), e["T"], e["I"], got_of(e),
+                            [(p["at"], p["cls"], tab.get(p["cls"], "unscripted")) for p in e["pings"]], e["attempts"], e["closed"], e["userClose"],
+                            e["kaEarly"], e["kaAlive"], e["kaLate"], e["left"], e["exit"][:80]),
+                        {"case": case, "level": e["level"], "seed": e["seed"], "observation": e})
+            continue
         v.violation(sig, "real keep-alive run violates %s: level=%s script=%s threshold=%d interval=%dus, session established by %s, peer completes the handshake: %s, Connect context %s: %s, pings (handed to the transport at, outcome, held for) %s, owner close %s, left=%d exit=%s" % (
             inv, e["level"], "".join(e["pattern"]) or "-", e["T"], e["I"],
             e["est"] if e["est"] == "init" else "%s (asked for %s, server/discover %s, speaks %s)" % (e["est"], e["hand"], e["disc"], e["neg"] or "?"),
